@@ -85,6 +85,10 @@ def main():
             if kernel:
                 shutil.copy('/root/similarity.c.bak', KERNEL_C)
             subprocess.run(['git', '-C', '/repo', 'checkout', '--', '.'], check=True)
+        if meta.get('confirmation', {}).get('confirmed') is False:
+            meta['note'] = ('not a valid property-breaking change on the current tree: its demonstration passes with the '
+                            'change applied (for C10-b: the shared-descriptor-dict route it relied on was closed by fix '
+                            'c0dd9604)')
         json.dump(meta, open(f'{d}/meta.json', 'w'), indent=1)
         det = meta['detection']
         print(sid, 'caught' if det.get('caught') else 'MISSED', det.get('caught_by_tier'),
